@@ -144,6 +144,10 @@ impl<'a> G<'a> {
                 if matches!(self.reg.funcs.get(&name), Some(Impl::Builtin)) {
                     self.overrides += 1;
                 }
+                if !self.reg.funcs.contains_key(&name) && self.r.chance(1, 3) {
+                    // the name is called (and fails: registered nowhere) BEFORE it is registered
+                    self.before.push(Op::Exec { prog: Prog::one(call(&name, vec![lit_i(1)])), ctx: CtxRef::Fresh(CtxSpec::empty()) });
+                }
                 let h = self.marker(HKind::Func);
                 self.reg.funcs.insert(name.clone(), Impl::H(h));
                 Op::RegFn { name, h }
@@ -251,8 +255,21 @@ impl<'a> G<'a> {
                     0 => "nobody".to_string(),
                     _ => self.reg.funcs.keys().nth(self.r.usize(self.reg.funcs.len())).unwrap().clone(),
                 };
-                match self.r.below(4) {
+                match self.r.below(5) {
                     0 => {
+                        let h = self.marker(HKind::CtxFunc);
+                        ctx.funcs.push((name.clone(), h));
+                        self.shadows += 1;
+                    }
+                    4 => {
+                        // the host bound the name more than once (a variable first, or another function
+                        // first): the binding made LAST is the one the context holds
+                        if self.r.chance(1, 2) {
+                            ctx.vars.push((name.clone(), Val::int(5)));
+                        } else {
+                            let h0 = self.marker(HKind::CtxFunc);
+                            ctx.funcs.push((name.clone(), h0));
+                        }
                         let h = self.marker(HKind::CtxFunc);
                         ctx.funcs.push((name.clone(), h));
                         self.shadows += 1;
